@@ -99,8 +99,10 @@ type Prog struct{ Funcs []*Func }
 var goBin = map[string]string{"Add": "+", "Sub": "-", "Mul": "*", "Quo": "/", "Rem": "%", "And": "&", "Or": "|", "Xor": "^", "AndNot": "&^", "Shl": "<<", "Shr": ">>"}
 var goCmp = map[string]string{"Ceq": "==", "Cne": "!=", "Clt": "<", "Cle": "<=", "Cgt": ">", "Cge": ">="}
 
-func varName(x int) string  { return fmt.Sprintf("v%d", x) }
-func funcName(f int) string { return map[bool]string{true: "main", false: fmt.Sprintf("f%d", f)}[f == 0] }
+func varName(x int) string { return fmt.Sprintf("v%d", x) }
+func funcName(f int) string {
+	return map[bool]string{true: "main", false: fmt.Sprintf("f%d", f)}[f == 0]
+}
 
 // ---- Go source ----
 
